@@ -45,6 +45,14 @@ def gen_plan(rng, index, tier):
     cells = [(i, j) for (i, j) in inputs.hex_cells(rings)]
     if sym != "full":
         bp["third"] = True  # filtered to the first third when the inputs are written
+    if rng.random() < 0.25:
+        # square assemblies on a Cartesian grid: full (centred on an assembly or on a corner), quarter
+        sym = rng.choice(["full", "full", "quarter reflective through center assembly", "quarter periodic"])
+        bp.update({"geom": "cartesian", "symmetry": sym, "rings": rng.choice([2, 2, 3])})
+        bp.pop("third", None)
+        if sym == "full" and rng.random() < 0.4:
+            bp["even"] = True
+        cells = inputs.cart_cells(bp["rings"] - 1, "full even" if bp.get("even") else sym)
     # holes: leave some cells empty so that there are free locations to add at
     holes = []
     if rng.random() < 0.7:
@@ -89,6 +97,8 @@ def simplify(plan):
     bp = plan["config"]["blueprint"]
     st = plan["config"]["settings"]
     for key, simple in (("plenum", False), ("nfuel", 1), ("geom", "hex")):
+        if key == "geom" and bp.get("geom") == "cartesian":
+            continue
         if bp.get(key) != simple:
             p = copy.deepcopy(plan)
             p["config"]["blueprint"][key] = simple
@@ -372,14 +382,16 @@ def execute(plan):
     cfg = copy.deepcopy(plan["config"])
     bp = cfg["blueprint"]
     rings = int(bp.get("rings", 2))
-    cells = inputs.hex_cells(rings)
+    cart = bp.get("geom") == "cartesian"
+    ring_of = inputs.cart_ring if cart else inputs.hex_ring
+    cells = inputs.cart_cells(rings - 1, "full even" if bp.get("even") else bp.get("symmetry", "full")) if cart else inputs.hex_cells(rings)
     log, scratch, clock, simos, d = enginea.new_run(plan)
     try:
         if bp.get("third") and bp.get("symmetry") != "full":
             cells = _first_third_cells(rings)
         holes = {tuple(h) for h in bp.get("holes", [])}
         used = [c for c in cells if c not in holes or c == (0, 0)]
-        bp["cells"] = [[i, j, "IC" if inputs.hex_ring(i, j) == 1 else "OC"] for (i, j) in used]
+        bp["cells"] = [[i, j, "IC" if ring_of(i, j) == 1 else "OC"] for (i, j) in used]
         bp["_free"] = [list(c) for c in cells if c not in used]
         plan2 = dict(plan)
         plan2["config"] = cfg
@@ -397,6 +409,7 @@ def execute(plan):
             w.check(k, st)
         probes = {"op_" + kk: kinds.count(kk) for kk in set(kinds)}
         probes["refused_operations"] = w.refused
+        probes["core_" + str(bp.get("geom", "hex")) + "_" + str(bp.get("symmetry", "full")).split(" ")[0]] = 1
         if w.m.stationary and any(x in kinds for x in ("swap", "cascade", "discharge_fresh", "discharge_pool")):
             probes["stationary_exchange"] = 1
         state = (sorted(w.m.loc.items()), sorted(w.m.pool), sorted(w.m.purged))
